@@ -439,6 +439,10 @@ func runCheck(prop, tier, only string, budgetOverride time.Duration) int {
 	if states == 0 {
 		states = m.DistinctN
 	}
+	transitions := m.Steps
+	if transitions == 0 {
+		transitions = m.Evals // plain enumerations: one evaluation of the real code per case
+	}
 	cov := map[string]any{
 		"evaluations":                   m.Execs,
 		"complete_executions":           m.Complete,
@@ -447,7 +451,7 @@ func runCheck(prop, tier, only string, budgetOverride time.Duration) int {
 		"nontrivial_executions":         m.Nontrivial,
 		"rule":                          pm.Rule,
 		"states":                        states,
-		"transitions":                   m.Steps,
+		"transitions":                   transitions,
 		"traces_validated_against_impl": m.Execs,
 		"samples":                       m.Samples,
 		"exhaustive":                    m.Exhaustive,
